@@ -14,6 +14,7 @@ CONSTANTS
   Dev_NoSeqCheck = FALSE
   Dev_MergeDupFilter = FALSE
   Dev_ShortChunkPanics = FALSE
+  Dev_ResetSeqOnRenew = FALSE
   Dev_PerRequestBound = FALSE
   AsIs_NoSeqCheck = FALSE
   AsIs_MergeDupFilter = FALSE
